@@ -89,6 +89,12 @@ def run(res, replay=None):
                'pop_sizes': {'a': {'0.0': 1.0}, 'b': {'0.0': 2.0}, 'c': {'0.0': 0.5}},
                'migration_rates': {'a>c': {'0.0': 0.7}, 'c>a': {'0.0': 0.3}}, 'end_time': None}
         cases.append({'spec': gh2, 'orders': [[1, 2, 0]], 'renamings': [], 'drop_unsampled': True})
+        # designed: sampled populations listed in NON-sorted order with different counts and an unsampled one that is omitted in a variant
+        us = {'n_items': [['b', 1], ['a', 2], ['c', 0]], 'model': {'kind': 'kingman'},
+              'pop_sizes': {'b': {'0.0': 1.0}, 'a': {'0.0': 2.0}, 'c': {'0.0': 0.5}},
+              'migration_rates': {'a>b': {'0.0': 0.5}, 'b>a': {'0.0': 0.25}, 'a>c': {'0.0': 0.8}, 'c>a': {'0.0': 0.3}, 'b>c': {'0.0': 0.2}, 'c>b': {'0.0': 0.6}},
+              'end_time': None}
+        cases.append({'spec': us, 'orders': [[1, 0, 2]], 'renamings': [], 'drop_unsampled': True})
     for hs in seeds:
         orc.run_oracle(res, 'naming', cases, hashseeds=None if hs == '0' else [hs] * len(cases), chunk=1)
     # exact correspondence of state spaces / rewards on the unsorted configurations
